@@ -49,6 +49,9 @@ CHECKS = {
  "C15": ("Boundary checks on design_matrices(...).response for every response form (float / int column, call, str / object / unordered Categorical declared unsorted / ordered Categorical with an unobserved declared level, y[ident], y['quoted level'], prop / p / proportion with column or constant trials, none): values, shapes, level order, `levels` and `kind` are rebuilt from the frame alone; refused forms (a:b ~, a + b ~, a*b ~, (a|g) ~, 1 ~, 0 ~) must raise; relational check that the common and group matrices, slices and labels of one right-hand side are identical under every response form. Frames include single-row and single-level ones and hostile level names.",
          "Shapes follow the pinned layout (categorical and proportion responses 2-d, numeric and y[level] responses n entries).",
          "runtime boundary monitor with frame-derived pointwise oracle + relational response-swap shadows"),
+ "C16": ("Boundary checks, at training time and on new frames built so that they lack the success level / smallest value, carry fractional values in integer-trained columns and other trials: binary / B indicator of the (training) success value and refusal of absent (also falsy) values; offset of a column / call / integer arithmetic / constant unchanged and recomputed from the new frame; prop / p / proportion columns, validation and prediction-time trials; I / {} identity; exact synonymy of the aliases (B/binary, p/prop/proportion, standardize/scale, T/C(.., Treatment), S/C(.., Sum)) at training and on new data.",
+         "Frames and helper expressions come from a fixed vocabulary; offset(-1) (a unary expression) is executed, not judged.",
+         "runtime boundary monitor with pointwise definitions as oracle + alias shadow executions"),
 }
 NOT_APPLICABLE = {}
 PENDING = [f"C{i:02d}" for i in range(1, 18) if f"C{i:02d}" not in CHECKS]
